@@ -14,7 +14,8 @@ def main():
     ready = json.load(open(os.path.join(core.VERIF, "claimed.json")))  # property ids integrated and verified green
     for p in sorted(glob.glob(os.path.join(core.LEAN, "theorems", "C*.json"))):
         pid = os.path.basename(p)[:-5]
-        m = json.load(open(p))
+        from .run import load_meta
+        m = load_meta(pid)
         if m.get("disabled") or pid not in ready:
             continue
         claimed.append(pid)
